@@ -1,7 +1,7 @@
 //! unit: u17
 //! properties: C17
 //! note: the per-message acceptance tests of the network graph and its staleness pruning: a channel_update / node_announcement replaces stored information only with a strictly newer timestamp, an update above the channel's capacity (or above 21e6 BTC, or for another chain) is refused, and pruning drops exactly the directions older than two weeks and the channels left without a current direction
-//! trusted: R15 (deep slices): NetworkGraph::update_channel_internal, update_node_from_announcement_intern and remove_stale_channels_and_tracking_with_time work on IndexedMaps behind RwLocks with signature checks through secp256k1; the unit extracts, on every run and verbatim, (a) the body of the closure check_update_latest, (b) the body of the closure check_msg_sanity (its two calls of check_update_latest get the message as an explicit argument), (c) the chain-hash test and the MAX_VALUE_MSAT test at the top of update_channel_internal, (d) the timestamp test of the node announcement, (e) the per-channel body of the pruning loop (`scids_to_remove.insert(*scid)` becomes setting a flag); map lookups, signature verification, storing the new information, removing channels from the node table and the order-independence of the whole graph are dropped and not claimed
+//! trusted: R15 (deep slices): NetworkGraph::update_channel_internal, update_node_from_announcement_intern and remove_stale_channels_and_tracking_with_time work on IndexedMaps behind RwLocks with signature checks through secp256k1; the unit extracts, on every run and verbatim, (a) the body of the closure check_update_latest, (b) the body of the closure check_msg_sanity (its two calls of check_update_latest get the message as an explicit argument), (c) the chain-hash test and the MAX_VALUE_MSAT test at the top of update_channel_internal, (d) the timestamp test of the node announcement, (e) the per-channel body of the pruning loop (`scids_to_remove.insert(*scid)` becomes setting a flag); (f) pre_channel_announcement_validation_check with the map lookup replaced by its result as a parameter (R5); map lookups, signature verification, storing the new information, removing channels from the node table and the order-independence of the whole graph are dropped and not claimed
 //! trusted: env: ChannelInfo {one_to_two, two_to_one, capacity_sats, announcement_received_time}, ChannelUpdateInfo {last_update}, UnsignedChannelUpdate {chain_hash, timestamp, channel_flags, htlc_maximum_msat}, NodeAnnouncementInfo {last_update} are field skeletons; ChainHash is an opaque identity; LightningError loses its text and action (R8)
 use vstd::prelude::*;
 verus! {
@@ -144,5 +144,50 @@ impl NetworkGraph {
 //@with
     info.two_to_one.as_ref().unwrap().last_update <= min_time_unix
 //@end
+
+// (f) channel announcements: trivially bogus ones and duplicates of what we already know are refused before any signature check
+#[derive(Clone, Copy)] pub struct NodeId(pub u64);
+impl PartialEqSpecImpl for NodeId { open spec fn obeys_eq_spec() -> bool { true } open spec fn eq_spec(&self, other: &NodeId) -> bool { self.0 == other.0 } }
+impl PartialEq for NodeId { fn eq(&self, o: &NodeId) -> (r: bool) { self.0 == o.0 } }
+impl PartialOrdSpecImpl for NodeId {
+    open spec fn obeys_partial_cmp_spec() -> bool { true }
+    open spec fn partial_cmp_spec(&self, other: &NodeId) -> Option<core::cmp::Ordering> {
+        if self.0 < other.0 { Some(core::cmp::Ordering::Less) } else if self.0 == other.0 { Some(core::cmp::Ordering::Equal) } else { Some(core::cmp::Ordering::Greater) } }
+}
+impl PartialOrd for NodeId { #[verifier::external_body] fn partial_cmp(&self, o: &NodeId) -> (r: Option<core::cmp::Ordering>) { self.0.partial_cmp(&o.0) } }
+pub struct UnsignedChannelAnnouncement { pub chain_hash: ChainHash, pub short_channel_id: u64, pub node_id_1: NodeId, pub node_id_2: NodeId, pub bitcoin_key_1: NodeId, pub bitcoin_key_2: NodeId }
+pub struct AnnChannelInfo { pub node_one: NodeId, pub node_two: NodeId, pub capacity_sats: Option<u64> }
+pub struct UtxoLookupStub {}
+impl NetworkGraph {
+//@extract lightning/src/routing/gossip.rs :: impl NetworkGraph :: fn pre_channel_announcement_validation_check
+//@strip msgs
+//@rw R15
+    fn pre_channel_announcement_validation_check<U: UtxoLookup>($params:any) -> $ret { $tests:any let channels = self.channels.read().unwrap(); if let Some(chan) = channels.get(&msg.short_channel_id) { $dup:any } Ok(()) }
+//@with
+    fn pre_channel_announcement_validation_check(&self, msg: &UnsignedChannelAnnouncement, known: Option<&AnnChannelInfo>, utxo_lookup: &Option<UtxoLookupStub>) -> Result<(), LightningError> {
+        $tests
+        if let Some(chan) = known { $dup }
+        Ok(())
+    }
+//@rw R8 *
+    LightningError { err: $e, action: $a, }
+//@with
+    LightningError { err: (), action: () }
+//@ret r
+//@ensures P C17 bogus-channel-announcements-and-announcements-for-a-channel-already-known-are-refused-the-first-accepted-one-wins
+    r is Ok ==> msg.node_id_1.0 < msg.node_id_2.0 && msg.bitcoin_key_1 != msg.bitcoin_key_2 && msg.chain_hash == self.chain_hash,
+    r is Ok && known is Some && known->Some_0.capacity_sats is Some ==> !(msg.node_id_1 == known->Some_0.node_one && msg.node_id_2 == known->Some_0.node_two),
+    r is Ok && known is Some && known->Some_0.capacity_sats is None ==> *utxo_lookup is Some,
+    (msg.node_id_1.0 < msg.node_id_2.0 && msg.bitcoin_key_1 != msg.bitcoin_key_2 && msg.chain_hash == self.chain_hash && known is None) ==> r is Ok,
+//@mutant duplicate_of_a_validated_channel_reprocessed
+    if msg.node_id_1 == chan.node_one && msg.node_id_2 == chan.node_two {
+//@with
+    if msg.node_id_1 == chan.node_one && msg.node_id_2 == chan.node_one {
+//@mutant announcement_for_another_chain_accepted
+    if msg.chain_hash != self.chain_hash {
+//@with
+    if false {
+//@end
+}
 }
 fn main() {}
